@@ -19,6 +19,7 @@ type c05Case struct {
 	Loc string `json:"location"`
 	Key string `json:"key,omitempty"`
 	Res string `json:"residues,omitempty"` // optional explicit residues (IUPAC letters, both cases)
+	Raw bool   `json:"raw_literal,omitempty"` // value not constructor-normal: only the mirror law and extraction symmetry are judged
 }
 
 // mirrorSiteOffByOne is the deviation transform of the test-pinned
@@ -399,6 +400,38 @@ func init() {
 					complete = false
 					break
 				}
+			}
+			// values that only struct literals can build (the parser folds them): complement of an all-complement join, double complement
+			{
+				L := 4
+				leaves := locdom.Contig(L)
+				var raw []gts.Location
+				for _, a := range leaves {
+					if _, isB := a.(gts.Between); isB {
+						continue
+					}
+					raw = append(raw, gts.Complemented{Location: gts.Complemented{Location: a}})
+					for _, b := range leaves {
+						if _, isB := b.(gts.Between); isB {
+							continue
+						}
+						da, db := denOf(a), denOf(b)
+						if len(da) == 0 || len(db) == 0 || da[len(da)-1].Pos >= db[0].Pos-1 {
+							continue // keep them apart and ascending so that no reduction interferes
+						}
+						raw = append(raw, gts.Complemented{Location: gts.Joined{gts.Complemented{Location: b}, gts.Complemented{Location: a}}},
+							gts.Complemented{Location: gts.Ordered{gts.Complemented{Location: a}, gts.Complemented{Location: b}}})
+					}
+				}
+				for _, lc := range raw {
+					c := c05Case{L: L, Loc: locdom.Encode(lc), Raw: true}
+					r.Evals.Add(1)
+					r.Distinct.Add("raw|" + c.Loc)
+					if ok, sig, detail := c05Eval(c); !ok {
+						r.Fail(engine.Failure{Sig: sig, Case: c, Detail: detail, Size: len(c.Loc)})
+					}
+				}
+				r.Extra["raw_literal_values"] = len(raw)
 			}
 			// residue clauses over the IUPAC alphabet in both cases, every range / complement range / 2-part join
 			iu := "ACGTURYKMSWBDHVNacgturykmswbdhvn-*xX"
